@@ -56,8 +56,21 @@ def num(x):
     return x
 
 
+NVAL_ALL = 5
+
+
 def par_valuation(n, t):
-    """dyadic, non-zero, distinct-ish values for the flattened parameter vector"""
+    """dyadic, non-zero, distinct-ish values for the flattened parameter vector; t = 3: the last parameter
+    element is NaN (a parameter without a value IS NaN in pymoca); t = 4: +inf first, -inf last"""
+    if t >= 3:
+        v = par_valuation(n, 0)
+        if t == 3 and n:
+            v[-1] = float("nan")
+        if t == 4 and n:
+            v[0] = float("inf")
+            if n > 1:
+                v[-1] = float("-inf")
+        return v
     return [(((k * 5 + t * 3) % 7) + 1) / 2.0 * (-1 if (t == 1 and k % 2 == 1) else 1) for k in range(n)]
 
 
@@ -65,9 +78,22 @@ def fn_point(f, t):
     import casadi as ca
     import numpy as np
     args = []
+    t0 = t if t < 2 else 0
+    nonempty = [i for i in range(f.n_in()) if f.size1_in(i) * f.size2_in(i)]
     for i in range(f.n_in()):
         r, c = f.size1_in(i), f.size2_in(i)
-        vals = [(((k * 7 + i * 3 + t * 5) % 11) + 1) / 4.0 for k in range(r * c)]
+        vals = [(((k * 7 + i * 3 + t0 * 5) % 11) + 1) / 4.0 for k in range(r * c)]
+        # non-finite points: t = 2 NaN in the last element of the last non-empty input (parameters, when there
+        # are any); t = 3 NaN in the first element of the second non-empty input (a state); t = 4 +inf / -inf
+        if vals and nonempty:
+            if t == 2 and i == nonempty[-1]:
+                vals[-1] = float("nan")
+            if t == 3 and i == nonempty[min(1, len(nonempty) - 1)]:
+                vals[0] = float("nan")
+            if t == 4 and i == nonempty[-1]:
+                vals[-1] = float("inf")
+            if t == 4 and i == nonempty[0] and len(nonempty) > 1:
+                vals[0] = float("-inf")
         args.append(ca.DM(np.array(vals).reshape((r, c), order="F")) if r * c else ca.DM(r, c))
     return args
 
@@ -82,7 +108,7 @@ def eval_fn(f):
     out = {"n_in": f.n_in(), "n_out": f.n_out(),
            "in": [[f.size1_in(i), f.size2_in(i)] for i in range(f.n_in())],
            "out": [[f.size1_out(i), f.size2_out(i)] for i in range(f.n_out())], "vals": []}
-    for t in range(2):
+    for t in range(5):
         r = f.call(fn_point(f, t))
         out["vals"].append([flat(e) for e in r])
     return out
@@ -111,7 +137,7 @@ def attr_obs(model, var, attr, pvec):
     except RuntimeError as e:
         res["vals"] = "free-symbols"
         return res
-    for t in range(NVAL):
+    for t in range(NVAL_ALL):
         r = flat(f(ca.DM(par_valuation(pvec.numel(), t))))
         if len(r) == 1 and n > 1:
             r = r * n          # broadcast exactly as variable_metadata_function does
@@ -151,7 +177,7 @@ def observe(model):
     for da in model.delay_arguments:
         try:
             f = ca.Function("d", syms, [ca.MX(da.expr), ca.MX(da.duration)])
-            o["delay_arguments"].append([[flat(e) for e in f.call(fn_point(f, t))] for t in range(2)])
+            o["delay_arguments"].append([[flat(e) for e in f.call(fn_point(f, t))] for t in range(3)])
         except Exception as e:  # noqa
             o["delay_arguments"].append({"exc": type(e).__name__, "msg": str(e)[:120]})
     return o
